@@ -539,6 +539,14 @@ pub trait RaftRoleState: Send + Sync + 'static {
         // My term might be updated, has to fetch it again
         let my_term = self.current_term();
 
+        // The reply must carry the term this node holds *after* adopting the request's term
+        // (Raft: "currentTerm, for leader to update itself"). Answering with the term from
+        // before the update makes the leader discard the acknowledgement as stale; with
+        // several merged requests every one of their senders would get that stale term.
+        let mut state_snapshot = state_snapshot.clone();
+        state_snapshot.current_term = my_term;
+        let state_snapshot = &state_snapshot;
+
         // Handle replication request
         match ctx
             .replication_handler()
